@@ -1,4 +1,5 @@
-(* Proofs/UtfSweep8.v — exhaustive evaluation over all code points below 0x110000 (a finite domain; the bound is in the statement) *)
+(* Proofs/UtfSweep8.v — exhaustive evaluation over all code points below 0x110000 (a finite domain; the bound is in the statement):
+   every scalar value round-trips, every surrogate code point, encoded as three bytes, is refused *)
 From GR Require Import Base.Bytes Base.Sweep Model.UtfModel.
 From Coq Require Import Lia.
 Local Open Scope N_scope.
@@ -44,8 +45,10 @@ Proof.
     destruct (0xC0 <=? y); [reflexivity|]. tauto.
 Qed.
 
+Definition got_err (a : option got) : bool := match a with Some g => (g_usv g =? 0xFFFD) && negb (g_ok g) | None => false end.
 Definition chk8 (u : N) : bool :=
-  got_is (get8 (put8 u)) u (length (put8 u)) && complete_tail (put8 u) && Nat.leb 1 (length (put8 u)).
+  if is_surrogate u then got_err (get8 (put8 u))
+  else got_is (get8 (put8 u)) u (length (put8 u)) && complete_tail (put8 u) && Nat.leb 1 (length (put8 u)).
 
 Lemma chk8_all : all_below 0x110000 chk8 = true.
 Proof. vm_cast_no_check (@eq_refl bool true). Qed.
